@@ -183,12 +183,21 @@ func c01Case(w *core.Worker, i int) {
 		if strings.Contains(run.res.Stderr, "Fatal Error") {
 			w.Violation("internal-failure", "the generated procedure ends in an internal failure: "+truncateStr(run.res.Stderr, 400), txReplay{Files: small(p.Files), Program: p.Text(), Variant: "none"})
 		}
-		w.Inconclusive(fmt.Sprintf("generated procedure fails by itself: %s", truncateStr(run.res.Stderr, 200)))
-		w.Case(digest+"/none", false)
-		return
+		if strings.Contains(run.res.Stderr, "failed to commit") {
+			// the final automatic COMMIT is refused (a format without a header line has nothing to write): an ending like any
+			// other failing COMMIT — the disk must hold the last completed one; the inserted terminations below still apply
+			txJudge(w, p, dir, run, initial, baseSnap, "none (final commit refused)", nil)
+			w.Count("procedures_whose_final_commit_is_refused", 1)
+			w.Case(digest+"/none", true)
+		} else {
+			w.Inconclusive(fmt.Sprintf("generated procedure fails by itself: %s", truncateStr(run.res.Stderr, 200)))
+			w.Case(digest+"/none", false)
+			return
+		}
+	} else {
+		txJudge(w, p, dir, run, initial, baseSnap, "none", nil)
+		w.Case(digest+"/none", true)
 	}
-	txJudge(w, p, dir, run, initial, baseSnap, "none", nil)
-	w.Case(digest+"/none", true)
 	totalStmts := run.stmts
 	if i < 3 {
 		w.Sample(map[string]interface{}{"procedure": truncateStr(p.Text(), 1500), "files": len(p.Files), "statement_executions": totalStmts})
